@@ -132,6 +132,7 @@ package keeper
 //@ ensures complete: ctxFound(raw, requestContextID) && addrEq(consumer, ctxOf(raw, requestContextID).Consumer) && (!checkModule || len(ctxOf(raw, requestContextID).ModuleName) == 0) ==> err == NoErr
 
 //@ func (Keeper).PauseRequestContext
+//@ preserves [C02,C16,C11] pending_requests_stay_well_formed: actInv(raw)
 //@ props C09 C05
 //@ modifies raw
 //@ ensures [C09] only_repeated_running: err == NoErr ==> (let c := ctxOf(old(raw), requestContextID) in ctxFound(old(raw), requestContextID) && c.Repeated && c.State == RUNNING)
@@ -140,17 +141,19 @@ package keeper
 //@ ensures error_changes_nothing: err != NoErr ==> raw == old(raw)
 
 //@ func (Keeper).StartRequestContext
+//@ preserves [C02,C16,C11] pending_requests_stay_well_formed: actInv(raw)
 //@ props C09 C05 C10 C11
 //@ modifies raw
 //@ ensures [C09] only_paused: err == NoErr ==> ctxFound(old(raw), requestContextID) && ctxOf(old(raw), requestContextID).State == PAUSED
 //@ ensures [C05] module_context_needs_consumer: err == NoErr ==> (let c := ctxOf(old(raw), requestContextID) in len(c.ModuleName) > 0 ==> addrEq(consumer, c.Consumer))
-//@ ensures [C09,C10,C11] running_and_requeued_iff_nothing_pending: err == NoErr ==> (let c := ctxOf(old(raw), requestContextID) in
+//@ ensures [C09,C10,C11,C16] running_and_requeued_iff_nothing_pending: err == NoErr ==> (let c := ctxOf(old(raw), requestContextID) in
 //@      let r1 := old(raw)[KCtx(requestContextID) := enc_RequestContext(c[State := RUNNING])] in
 //@      raw == ((!hasExp(old(raw), requestContextID) && !hasNew(old(raw), requestContextID))
 //@               ? r1[KNewQ(ctxHeight(ctx), requestContextID) := idVal(requestContextID)][KNewH(requestContextID) := hVal(ctxHeight(ctx))] : r1))
 //@ ensures error_changes_nothing: err != NoErr ==> raw == old(raw)
 
 //@ func (Keeper).KillRequestContext
+//@ preserves [C02,C16,C11] pending_requests_stay_well_formed: actInv(raw)
 //@ props C09 C05
 //@ modifies raw
 //@ ensures [C09] only_repeated: err == NoErr ==> ctxFound(old(raw), requestContextID) && ctxOf(old(raw), requestContextID).Repeated
@@ -159,6 +162,7 @@ package keeper
 //@ ensures error_changes_nothing: err != NoErr ==> raw == old(raw)
 
 //@ func (Keeper).UpdateRequestContext
+//@ preserves [C02,C16,C11] pending_requests_stay_well_formed: actInv(raw)
 //@ props C09 C05 C10
 //@ modifies raw
 //@ requires [C09] stored_context_in_range: ctxFound(raw, requestContextID) ==> rng_RequestContext(ctxOf(raw, requestContextID))
@@ -245,7 +249,7 @@ package keeper
 //@ loop 0 invariant cleared_so_far: raw == clrProv(old(raw), iterator_snap, iterator_pfx, iterator_pos)
 //@ witness paid (Slice Coin) := withdrawFees
 //@ witness oe (Slice Coin) := ownerEarnedFees
-//@ ensures [C05] only_the_provider_owner: err == NoErr && len(provider) > 0 ==> addrEq(owner, ownerOf(old(raw), provider))
+//@ ensures [C05,C13] only_the_provider_owner: err == NoErr && len(provider) > 0 ==> addrEq(owner, ownerOf(old(raw), provider))
 //@ ensures [C13] pays_exactly_the_recorded_earnings: err == NoErr ==> (forall d Str :: amt(paid, d) ==
 //@      (len(provider) > 0 ? pfxSum(old(raw), PEarned(provider), d) : pfxSum(old(raw), POwnerEarned(owner), d)))
 //@ ensures [C13] to_the_owners_withdrawal_address: err == NoErr ==> bal == bankMove(old(bal), requestAcc, withdrawAddrOf(old(raw), owner), paid)
@@ -482,3 +486,77 @@ package keeper
 //@ func (Keeper).Params
 //@ props C17
 //@ ensures [C17] the_parameters_in_force: err == NoErr && result0.Params == params
+
+// ---------------------------------------------------------------- legacy querier (C17): same views as the gRPC methods, JSON-encoded.
+// D(x) below is the decoded parameter struct jsonDec_<T>(req.Data); the answer is jsonEnc_<T>(view).
+//@ func queryServiceDefinition
+//@ props C17
+//@ ensures [C17] same_view_as_grpc: err == NoErr ==> (let ps := jsonDec_QueryDefinitionParams(fld_Opaque_RequestQuery_Data(req)) in
+//@      defFound(raw, ps.ServiceName) && result0 == jsonEnc_ServiceDefinition(dec_ServiceDefinition(raw[KDef(ps.ServiceName)])))
+
+//@ func queryBinding
+//@ props C17
+//@ ensures [C17] same_view_as_grpc: err == NoErr ==> (let ps := jsonDec_QueryBindingParams(fld_Opaque_RequestQuery_Data(req)) in
+//@      bindFound(raw, ps.ServiceName, ps.Provider) && result0 == jsonEnc_ServiceBinding(bindOf(raw, ps.ServiceName, ps.Provider)))
+
+//@ func queryBindings
+//@ props C17 C15
+//@ requires owner_address: (let ps := jsonDec_QueryBindingsParams(fld_Opaque_RequestQuery_Data(req)) in len(ps.Owner) == 0 || len(ps.Owner) == 20)
+//@ loop 0 invariant pos_in_range: 0 <= iterator_pos && iterator_pos <= itCount(iterator_snap, iterator_pfx)
+//@ loop 0 invariant snapshot: iterator_snap == raw && iterator_pfx == PBindSvc(params.ServiceName)
+//@ loop 0 invariant listed_so_far: bindings == bindsIt(iterator_snap, iterator_pfx, iterator_pos)
+//@ ensures [C17,C15] same_view_as_grpc: err == NoErr ==> (let ps := jsonDec_QueryBindingsParams(fld_Opaque_RequestQuery_Data(req)) in
+//@      result0 == jsonEnc__Slice_ServiceBinding_(len(ps.Owner) == 0 ? bindsIt(raw, PBindSvc(ps.ServiceName), itCount(raw, PBindSvc(ps.ServiceName)))
+//@           : ownerBindsIt(raw, POwnerBind(ps.Owner, ps.ServiceName), itCount(raw, POwnerBind(ps.Owner, ps.ServiceName)))))
+
+//@ func queryWithdrawAddress
+//@ props C17
+//@ ensures [C17] same_view_as_grpc: err == NoErr ==> result0 == jsonEnc_Bytes(withdrawAddrOf(raw, jsonDec_QueryWithdrawAddressParams(fld_Opaque_RequestQuery_Data(req)).Owner))
+
+//@ func queryRequest
+//@ props C17
+//@ ensures [C17] same_view_as_grpc: err == NoErr ==> (let ps := jsonDec_QueryRequestParams(fld_Opaque_RequestQuery_Data(req)) in
+//@      len(ps.RequestID) == 58 && result0 == jsonEnc_Request(requestOrZero(raw, ps.RequestID)))
+
+//@ func queryRequests
+//@ props C17
+//@ loop 0 invariant pos_in_range: 0 <= iterator_pos && iterator_pos <= itCount(iterator_snap, iterator_pfx)
+//@ loop 0 invariant snapshot: iterator_snap == raw && iterator_pfx == PActBind(params.ServiceName, params.Provider)
+//@ loop 0 invariant listed_so_far: requests == reqsByMarkerIt(iterator_snap, iterator_pfx, iterator_pos)
+//@ ensures [C17] same_view_as_grpc: err == NoErr ==> (let ps := jsonDec_QueryRequestsParams(fld_Opaque_RequestQuery_Data(req)) in
+//@      result0 == jsonEnc__Slice_Request_(reqsByMarkerIt(raw, PActBind(ps.ServiceName, ps.Provider), itCount(raw, PActBind(ps.ServiceName, ps.Provider)))))
+
+//@ func queryResponse
+//@ props C17
+//@ ensures [C17] same_view_as_grpc: err == NoErr ==> (let ps := jsonDec_QueryResponseParams(fld_Opaque_RequestQuery_Data(req)) in
+//@      len(ps.RequestID) == 58 && result0 == jsonEnc_Response(raw[KResp(ps.RequestID)] == bnil ? zero_Response : dec_Response(raw[KResp(ps.RequestID)])))
+
+//@ func queryRequestContext
+//@ props C17
+//@ ensures [C17] same_view_as_grpc: err == NoErr ==> result0 == jsonEnc_RequestContext(ctxOrZero(raw, jsonDec_QueryRequestContextParams(fld_Opaque_RequestQuery_Data(req)).RequestContextID))
+
+//@ func queryRequestsByReqCtx
+//@ props C17
+//@ loop 0 invariant pos_in_range: 0 <= iterator_pos && iterator_pos <= itCount(iterator_snap, iterator_pfx)
+//@ loop 0 invariant snapshot: iterator_snap == raw && iterator_pfx == PReqByCtx(params.RequestContextID, params.BatchCounter)
+//@ loop 0 invariant listed_so_far: requests == reqsByKeyIt(iterator_snap, iterator_pfx, iterator_pos)
+//@ ensures [C17] same_view_as_grpc: err == NoErr ==> (let ps := jsonDec_QueryRequestsByReqCtxParams(fld_Opaque_RequestQuery_Data(req)) in
+//@      result0 == jsonEnc__Slice_Request_(reqsByKeyIt(raw, PReqByCtx(ps.RequestContextID, ps.BatchCounter), itCount(raw, PReqByCtx(ps.RequestContextID, ps.BatchCounter)))))
+
+//@ func queryResponses
+//@ props C17
+//@ loop 0 invariant pos_in_range: 0 <= iterator_pos && iterator_pos <= itCount(iterator_snap, iterator_pfx)
+//@ loop 0 invariant snapshot: iterator_snap == raw && iterator_pfx == PRespByCtx(params.RequestContextID, params.BatchCounter)
+//@ loop 0 invariant listed_so_far: responses == respsIt(iterator_snap, iterator_pfx, iterator_pos)
+//@ ensures [C17] same_view_as_grpc: err == NoErr ==> (let ps := jsonDec_QueryResponsesParams(fld_Opaque_RequestQuery_Data(req)) in
+//@      result0 == jsonEnc__Slice_Response_(respsIt(raw, PRespByCtx(ps.RequestContextID, ps.BatchCounter), itCount(raw, PRespByCtx(ps.RequestContextID, ps.BatchCounter)))))
+
+//@ func queryEarnedFees
+//@ props C17
+//@ witness fees_ (Slice Coin) := fees
+//@ ensures [C17] same_view_as_grpc: err == NoErr ==> result0 == jsonEnc__Slice_Coin_(fees_) &&
+//@      (forall d Str :: amt(fees_, d) == pfxSum(raw, PEarned(jsonDec_QueryEarnedFeesParams(fld_Opaque_RequestQuery_Data(req)).Provider), d))
+
+//@ func queryParams
+//@ props C17
+//@ ensures [C17] same_view_as_grpc: err == NoErr ==> result0 == jsonEnc_Params(params)
